@@ -57,6 +57,9 @@ func genC20(r *rand.Rand, idx int, tier string, kind string) *StreamCase {
 	default:
 		p := genC05(r, 1000+idx, "quick")
 		c.Enum = p
+		if p.NbVars() > 8 { // up to 2^n models are delivered: no artificial delay on the larger ones
+			c.Delay = 0
+		}
 	}
 	return c
 }
